@@ -1587,6 +1587,18 @@ def convert_lrelu_to_mul_max(op, arch):
     if ifm is None or ofm is None:
         return op
 
+    # All ops created below work elementwise on the ifm: they keep the shape the LeakyRelu works with, whatever shape
+    # the tensors carry (the ofm can be the output of a bypassed memory only op)
+    op_shape = op.ifm_shapes[0] if op.ifm_shapes else None
+
+    def set_shapes(new_op):
+        new_op.set_ifm_ofm_shapes()
+        if op_shape is not None:
+            for idx, tens in enumerate((new_op.ifm, new_op.ifm2)):
+                if tens is not None and idx < len(new_op.ifm_shapes) and tens.shape not in ([], [1]):
+                    new_op.ifm_shapes[idx] = op_shape
+            new_op.ofm_shapes[0] = op_shape
+
     alpha = np.float32(op.attrs["alpha"])
     use_mul_max = 0 < alpha < 1
     is_converted_prelu = "alpha_scaling" in op.attrs
@@ -1610,7 +1622,7 @@ def convert_lrelu_to_mul_max(op, arch):
             # int32 Mul below to perform the (negative) alpha scaling
             mul_ifm.dtype = DataType.int32
         min_op.set_output_tensor(mul_ifm)
-        min_op.set_ifm_ofm_shapes()
+        set_shapes(min_op)
         new_op = Op.Add
         op.explicit_scaling = ExplicitScaling(False, shift=[0], multiplier=[1])  # No scaling
         DebugDatabase.add_optimised(op, min_op)
@@ -1643,7 +1655,7 @@ def convert_lrelu_to_mul_max(op, arch):
     mul_alpha.add_input_tensor(alpha_tens)
     fm_alpha = ofm.clone(op.name + "_alpha", set_unique=True)
     mul_alpha.set_output_tensor(fm_alpha)
-    mul_alpha.set_ifm_ofm_shapes()
+    set_shapes(mul_alpha)
     DebugDatabase.add_optimised(op, mul_alpha)
 
     if not use_mul_max:
@@ -1651,7 +1663,7 @@ def convert_lrelu_to_mul_max(op, arch):
         relu_op.add_input_tensor(ifm)
         fm_id = ofm.clone(op.name + "_positive_scaled", set_unique=True)
         relu_op.set_output_tensor(fm_id)
-        relu_op.set_ifm_ofm_shapes()
+        set_shapes(relu_op)
         DebugDatabase.add_optimised(op, relu_op)
     elif check_quantized_tens_scaling_equal(ifm, ofm):
         # No identity multiplication is needed
@@ -1671,7 +1683,7 @@ def convert_lrelu_to_mul_max(op, arch):
         # Make sure that fm_id is allocated to a different address than fm_alpha
         fm_id = ofm.clone(op.name + "_id", set_unique=True)
         mul_identity.set_output_tensor(fm_id)
-        mul_identity.set_ifm_ofm_shapes()
+        set_shapes(mul_identity)
         DebugDatabase.add_optimised(op, mul_identity)
 
     # Convert LeakyRelu to Max, add the results of the multiplication(s) as inputs
@@ -1681,7 +1693,7 @@ def convert_lrelu_to_mul_max(op, arch):
     ifm.consumer_list.remove(op)
     op.add_input_tensor(fm_alpha)
     op.add_input_tensor(fm_id)
-    op.set_ifm_ofm_shapes()
+    set_shapes(op)
 
     DebugDatabase.add_optimised(op, op)
     return op
